@@ -49,6 +49,9 @@ CLAIMS = {
  'C11': ('exploration',
    "TLA+ spec SigDigest gives the RFC 9580 5.2.4 preimage as a token layout for every signature type x signature version (3,4,6) x object x version of the signed key; TLC checks layout consistency (and that framing a key by the signer's version instead of its own is rejected) and emits all 87 layouts. The harness fills the tokens with octets of real objects and hashes with the primitive crates; the digest a recording SigningKey receives from sign / sign_certification_third_party / sign_subkey_binding / sign_primary_key_binding / sign_key / DetachedSignature / MessageBuilder must equal it, and a signature assembled over the independent preimage must verify in the crate with that digest (recording VerifyingKey) - RSA and EdDSA v4, Ed25519 and RSA v6, 4-5 hashes, hashed areas from empty to 60 kB (v4) / 70 kB (v6), same- and cross-version signees.",
    'DESIGN.md 5/C11', 'TLA+ layout specification enumerated by TLC; independent spec-derived preimage vs digests observed at the primitive boundary (spec->impl conformance)'),
+ 'C12': ('exploration',
+   "TLA+ spec SymLayouts states every RFC 9580 symmetric / KDF construction as a plan (S2K count decoding, repeat/tail split and zero-preloaded contexts; SEIPDv2 HKDF info, key/iv split, chunk tiling, nonce indices, final-tag associated data; SEIPDv1 prefix and MDC coverage; SKESK v4/v6; secret-key protection 253/254/255 with tag octet 0xC5/0xC7; ECDH KDF parameter layout, fixed-width Z, PKCS5 padding; X25519/X448 HKDF inputs); TLC checks the arithmetic invariants and emits all plans (2348 quick). The harness executes the plans on the RustCrypto primitives (own CFB and RFC 3394 wrap, hkdf, eax/ocb3/aes-gcm, argon2, x25519-dalek, cx448, p256/p384/p521) and compares with the crate in both directions: derive_key for every coded count, SEIPD v1 (11 ciphers) and v2 (9 cipher x mode pairs x chunk sizes x plaintext lengths 0..3 chunks), SKESK v4/v6 x 4 S2K types, whole password messages, locked secret keys (primary/subkey, v4/v6), and PKESK for ECDH Curve25519/P-256/P-384/P-521 and X25519/X448 with ephemeral keys ground until the shared secret starts with a zero octet.",
+   'DESIGN.md 5/C12', 'TLA+ construction plans enumerated by TLC and executed on independent primitives; two-way interoperability with the crate (spec->impl conformance)'),
  'C13': ('exploration',
    "TLA+ spec SigDigest states fingerprint preimage / hash / length / key-id rule per key version and the sites where the library embeds identities; TLC checks the fingerprint framing agrees with the framing used in signatures and emits the rules. The harness recomputes fingerprint and key id with the primitive crates for every primary and subkey of generated keys (9 algorithm pairs + 60 (thorough 300) seeds) and of every key that parses from the 344-file fixture corpus (v3, v4, v6), checks secret/public/serialised/armored/re-parsed copies agree, and reads the embedded values out of library-made signatures, one-pass packets and PKESKs with an independent deframer before looking the key up through them.",
    'DESIGN.md 5/C13', 'TLA+ rule table enumerated by TLC; independent spec-derived fingerprint/key id vs the crate over generated + fixture keys (spec->impl conformance)'),
